@@ -165,7 +165,7 @@ class BoundCallable:
         actual = BoundCallable.bind(fun, known, *args, **kwargs)
         return fun(*actual.args, **actual.kwargs)
 
-    _BIND_CACHE: ClassVar[dict[Any, ActualArguments]] = {}
+    _BIND_CACHE: ClassVar[dict[Any, tuple[Callable, ActualArguments]]] = {}
     _HIT_COUNT: int = 0
 
     @staticmethod
@@ -176,7 +176,8 @@ class BoundCallable:
         **kwargs: Any,
     ) -> ActualArguments:
         key = BoundCallable._arg_key(fun, known, args, kwargs)
-        if (cached := BoundCallable._BIND_CACHE.get(key)) is not None:
+        cached_fun, cached = BoundCallable._BIND_CACHE.get(key, (None, None))
+        if cached is not None and cached_fun is fun:
             # HACK
             # BoundCallable._HIT_COUNT += 1
             # if BoundCallable._HIT_COUNT % (16 * 1024) == 0:
@@ -184,7 +185,9 @@ class BoundCallable:
             return cached
 
         result = BoundCallable._actual_bind(fun, known, *args, **kwargs)
-        BoundCallable._BIND_CACHE[key] = result
+        # NOTE: the key holds id(fun): the entry must keep fun alive,
+        #   or another callable could be given the same id and this binding
+        BoundCallable._BIND_CACHE[key] = (fun, result)
         return result
 
     @staticmethod
